@@ -1,7 +1,10 @@
 (* C13: properties of dissemination for ARBITRARY shred sequences (no honesty assumption):
    the blockstore model never panics, InvalidBlock is announced at most once and nothing is announced
    afterwards, and two shreds of one slice with different commitments (root or last flag) always get the
-   leader flagged, whatever the order and whatever else is delivered. *)
+   leader flagged, whatever the order and whatever else is delivered.
+   Tag guard (current tree): a shred whose data / coding tag contradicts its index is refused up front and
+   leaves no trace, so "delivered" means "delivered with a consistent tag" in the flagging theorems, and a run
+   over l has the state and the events of the run over [filter shred_tag_ok l] (run_filter_tag). *)
 From Coq Require Import List NArith Bool Arith Lia ZifyBool ZifyNat ZifyN.
 From AG Require Import Gen.Params Model.Pool Model.Blockstore Model.BlockstoreSpec Proofs.SlotStateProofs
   Proofs.BlockstoreProofs Proofs.BlockstoreOrderProofs.
@@ -188,33 +191,38 @@ Definition SdOk (sd : slotdata) : Prop := sd_panicked sd = false /\ WF (sd_disse
 Lemma dissem_step_any c slot sd s sd' r ev : SdOk sd ->
   bs_step true c slot sd (BDissem s) = (sd', r, ev) ->
   SdOk sd' /\ r <> BRPanic /\
+  (shred_tag_ok s = false -> sd' = sd /\ ev = [] /\ r = BRErr EInvalidShred) /\
   (sd_misbehaved sd = true -> sd' = sd /\ ev = [] /\ r = BRErr EInvalidShred) /\
-  (sd_misbehaved sd = false ->
+  (sd_misbehaved sd = false -> shred_tag_ok s = true ->
      (sd_misbehaved sd' = false /\ ~ In BInvalidBlock ev /\
       alookup (b_slice s) (bd_cache (sd_dissem sd')) = Some (commitment_of s) /\
       (forall k x, alookup k (bd_cache (sd_dissem sd)) = Some x -> alookup k (bd_cache (sd_dissem sd')) = Some x))
      \/ (sd_misbehaved sd' = true /\ ev = [BInvalidBlock])).
 Proof.
-  intros [Hp W]. unfold bs_step. rewrite Hp. destruct (sd_misbehaved sd) eqn:M.
+  intros [Hp W]. destruct (shred_tag_ok s) eqn:T.
+  2:{ rewrite (bs_step_tag_bad true c slot sd (BDissem s) Hp T). intros H. injection H as <- <- <-.
+      split; [exact (conj Hp W)|]. split; [discriminate|]. split; [auto|]. split; [auto | intros _ C; discriminate]. }
+  rewrite (bs_step_tag_ok true c slot sd (BDissem s) T). unfold bs_step_gen. rewrite Hp. cbn [andb].
+  destruct (sd_misbehaved sd) eqn:M.
   - intros H. injection H as <- <- <-. split; [exact (conj Hp W)|]. split; [discriminate|].
-    split; [auto | discriminate].
+    split; [discriminate|]. split; [auto | discriminate].
   - destruct (bd_add_shred true c slot (sd_dissem sd) s) as [d r0] eqn:E.
     destruct (add_any true c slot _ s d r0 W E) as [W' [Hnp [Hev Hcache]]].
     destruct r0 as [e|e|]; [| |congruence].
     + intros H. injection H as <- <- <-. split; [exact (conj eq_refl W')|]. split; [destruct e as [[]|]; discriminate|].
-      split; [discriminate|]. intros _. left. cbn [sd_misbehaved sd_dissem]. split; [reflexivity|]. split.
+      split; [discriminate|]. split; [discriminate|]. intros _ _. left. cbn [sd_misbehaved sd_dissem]. split; [reflexivity|]. split.
       * destruct e as [e|]; [|intros []]. destruct (Hev e eq_refl) as [->|[h [p ->]]]; intros [C|[]]; discriminate.
       * destruct Hcache as [[C _]|C]; [discriminate | exact C].
     + destruct e.
       * intros H. injection H as <- <- <-. split; [exact (conj eq_refl W')|]. split; [discriminate|].
-        split; [discriminate|]. intros _. left. cbn [sd_misbehaved sd_dissem]. split; [reflexivity|]. split; [intros []|].
+        split; [discriminate|]. split; [discriminate|]. intros _ _. left. cbn [sd_misbehaved sd_dissem]. split; [reflexivity|]. split; [intros []|].
         destruct Hcache as [[C _]|C]; [discriminate | exact C].
       * unfold flag_misbehaviour. cbn [sd_misbehaved sd_dissem sd_repaired sd_panicked].
         intros H. injection H as <- <- <-. split; [exact (conj eq_refl W')|]. split; [discriminate|].
-        split; [discriminate|]. intros _. right. auto.
+        split; [discriminate|]. split; [discriminate|]. intros _ _. right. auto.
       * unfold flag_misbehaviour. cbn [sd_misbehaved sd_dissem sd_repaired sd_panicked].
         intros H. injection H as <- <- <-. split; [exact (conj eq_refl W')|]. split; [discriminate|].
-        split; [discriminate|]. intros _. right. auto.
+        split; [discriminate|]. split; [discriminate|]. intros _ _. right. auto.
 Qed.
 
 (* ---------- runs ---------- *)
@@ -230,7 +238,8 @@ Definition RunInv (l : list bshred) (st : slotdata * list (bs_ret * list bevent)
   (forall r ev, In (r, ev) (snd st) -> r <> BRPanic) /\
   filter is_invalid_event (out_events (snd st)) = (if sd_misbehaved (fst st) then [BInvalidBlock] else []) /\
   (sd_misbehaved (fst st) = false ->
-   forall s, In s l -> alookup (b_slice s) (bd_cache (sd_dissem (fst st))) = Some (commitment_of s)).
+   forall s, In s l -> shred_tag_ok s = true ->
+             alookup (b_slice s) (bd_cache (sd_dissem (fst st))) = Some (commitment_of s)).
 
 Lemma run_any c slot l : RunInv l (bs_dissem_run c slot l).
 Proof.
@@ -239,21 +248,25 @@ Proof.
   - rewrite run_snoc'. destruct (bs_dissem_run c slot l) as [sd out]. destruct IH as [Hok [Hret [Hinv Hcache]]].
     cbn [fst snd] in *. unfold bs_dissem_step. cbn [fst snd].
     destruct (bs_step true c slot sd (BDissem s)) as [[sd' r] ev] eqn:E.
-    destruct (dissem_step_any c slot sd s sd' r ev Hok E) as [Hok' [Hnp [Hfl Hun]]].
+    destruct (dissem_step_any c slot sd s sd' r ev Hok E) as [Hok' [Hnp [Hbad [Hfl Hun]]]].
     split; [exact Hok'|]. cbn [fst snd]. split; [|split].
     + intros r0 ev0 Hin. apply in_app_iff in Hin. destruct Hin as [Hin|[Hin|[]]]; [exact (Hret _ _ Hin)|].
       injection Hin as <- <-. exact Hnp.
     + rewrite out_events_app, filter_app, Hinv. unfold out_events at 1. cbn [flat_map snd]. rewrite app_nil_r.
+      destruct (shred_tag_ok s) eqn:T; [|destruct (Hbad eq_refl) as [-> [-> _]]; apply app_nil_r].
       destruct (sd_misbehaved sd) eqn:M.
       * destruct (Hfl eq_refl) as [-> [-> _]]. rewrite M. reflexivity.
-      * destruct (Hun eq_refl) as [[M' [Hni _]]|[M' ->]]; rewrite M'.
+      * destruct (Hun eq_refl eq_refl) as [[M' [Hni _]]|[M' ->]]; rewrite M'.
         -- rewrite (filter_invalid_none ev Hni). reflexivity.
         -- reflexivity.
-    + intros M' s0 Hin. destruct (sd_misbehaved sd) eqn:M.
+    + intros M' s0 Hin T0. destruct (shred_tag_ok s) eqn:T.
+      2:{ destruct (Hbad eq_refl) as [-> _]. apply in_app_iff in Hin. destruct Hin as [Hin|[<-|[]]]; [|congruence].
+          exact (Hcache M' s0 Hin T0). }
+      destruct (sd_misbehaved sd) eqn:M.
       * destruct (Hfl eq_refl) as [-> _]. congruence.
-      * destruct (Hun eq_refl) as [[_ [_ [Hnew Hold]]]|[C _]]; [|congruence].
+      * destruct (Hun eq_refl eq_refl) as [[_ [_ [Hnew Hold]]]|[C _]]; [|congruence].
         apply in_app_iff in Hin. destruct Hin as [Hin|[<-|[]]]; [|exact Hnew].
-        apply Hold. apply Hcache; [reflexivity | exact Hin].
+        apply Hold. apply Hcache; [reflexivity | exact Hin | exact T0].
 Qed.
 
 (* dissemination never panics the blockstore, whatever is delivered *)
@@ -284,7 +297,7 @@ Proof.
     destruct (bs_dissem_run c slot (l1 ++ l2)) as [sd out]. cbn [fst snd] in *.
     unfold bs_dissem_step. cbn [fst snd].
     destruct (bs_step true c slot sd (BDissem s)) as [[sd' r] ev] eqn:E.
-    destruct (dissem_step_any c slot sd s sd' r ev Hok E) as [_ [_ [Hfl _]]].
+    destruct (dissem_step_any c slot sd s sd' r ev Hok E) as [_ [_ [_ [Hfl _]]]].
     rewrite Hst in Hfl. destruct (Hfl M) as [-> [-> ->]]. cbn [fst snd]. split; [reflexivity|].
     exists (out2 ++ [(BRErr EInvalidShred, [])]). rewrite Hout, <- app_assoc. split; [reflexivity|]. split.
     + rewrite !app_length, Hlen. reflexivity.
@@ -292,18 +305,19 @@ Proof.
       injection Hin as <- <-. auto.
 Qed.
 
-(* equivocation is always detected: two delivered shreds of one slice with different commitments (slice root
-   or last-slice flag) - in any order, at any positions, among any other shreds - get the leader flagged and
-   InvalidBlock announced exactly once *)
+(* equivocation is always detected: two delivered shreds (each with a tag consistent with its index: others are
+   refused up front and prove nothing) of one slice with different commitments (slice root or last-slice flag)
+   - in any order, at any positions, among any other shreds - get the leader flagged and InvalidBlock announced
+   exactly once *)
 Theorem dissem_equivocation_flagged : forall c slot l s1 s2,
-  In s1 l -> In s2 l -> b_slice s1 = b_slice s2 ->
+  In s1 l -> In s2 l -> shred_tag_ok s1 = true -> shred_tag_ok s2 = true -> b_slice s1 = b_slice s2 ->
   commit_eqb (commitment_of s1) (commitment_of s2) = false ->
   sd_misbehaved (fst (bs_dissem_run c slot l)) = true /\
   filter is_invalid_event (out_events (snd (bs_dissem_run c slot l))) = [BInvalidBlock].
 Proof.
-  intros c slot l s1 s2 H1 H2 Hs Hc. destruct (run_any c slot l) as [_ [_ [Hinv Hcache]]].
+  intros c slot l s1 s2 H1 H2 T1 T2 Hs Hc. destruct (run_any c slot l) as [_ [_ [Hinv Hcache]]].
   destruct (sd_misbehaved (fst (bs_dissem_run c slot l))) eqn:M; [split; [reflexivity | exact Hinv]|].
-  exfalso. pose proof (Hcache eq_refl s1 H1) as A. pose proof (Hcache eq_refl s2 H2) as B.
+  exfalso. pose proof (Hcache eq_refl s1 H1 T1) as A. pose proof (Hcache eq_refl s2 H2 T2) as B.
   rewrite Hs in A. assert (B' : commitment_of s1 = commitment_of s2) by congruence.
   rewrite B', commit_eqb_refl in Hc. discriminate.
 Qed.
@@ -312,7 +326,7 @@ Qed.
 (* while the leader is not flagged: every delivered last-marked shred fixes bd_last, every delivered shred's
    slice is within it, and its slice has an entry in the shred table *)
 Definition LastInv (l : list bshred) (d : bdata) : Prop :=
-  forall s, In s l ->
+  forall s, In s l -> shred_tag_ok s = true ->
     (b_last s = true -> bd_last d = Some (b_slice s)) /\
     (forall last, bd_last d = Some last -> b_slice s <= last) /\
     alookup (b_slice s) (bd_shreds d) <> None.
@@ -330,7 +344,7 @@ Lemma grow_set_shreds d k v : Grow d (bd_set_shreds d (ainsert k v (bd_shreds d)
 Proof. split; [reflexivity|]. intros k0 H. cbn [bd_set_shreds bd_shreds]. apply alookup_ainsert_grow. exact H. Qed.
 Lemma last_inv_grow l d d' : Grow d d' -> LastInv l d -> LastInv l d'.
 Proof.
-  intros [G1 G2] H s Hs. destruct (H s Hs) as [A [B C]]. rewrite G1. split; [exact A|]. split; [exact B | apply G2; exact C].
+  intros [G1 G2] H s Hs Ts. destruct (H s Hs Ts) as [A [B C]]. rewrite G1. split; [exact A|]. split; [exact B | apply G2; exact C].
 Qed.
 
 Lemma rec_slice_grow c d idx : Grow d (fst (try_reconstruct_slice c d idx)).
@@ -390,7 +404,7 @@ Proof.
   destruct (cache_step d s) as [d1|] eqn:E1.
   2:{ intros H [[e He]|He]; injection H as <- <-; discriminate. }
   destruct (cache_step_frame d s d1 E1) as [_ [F2 [F3 _]]].
-  assert (HJ1 : LastInv l d1) by (intros s0 Hs0; rewrite F2, F3; exact (HJ s0 Hs0)).
+  assert (HJ1 : LastInv l d1) by (intros s0 Hs0 T0; rewrite F2, F3; exact (HJ s0 Hs0 T0)).
   destruct (last_step d1 s) as [d2|] eqn:E2.
   2:{ intros H [[e He]|He]; injection H as <- <-; discriminate. }
   assert (HJ2 : LastInv l d2 /\ (b_last s = true -> bd_last d2 = Some (b_slice s)) /\
@@ -406,15 +420,15 @@ Proof.
         assert (Hf : filter (fun x : N * list (N * bshred) => fst x <=? b_slice s) (bd_shreds d1) = bd_shreds d1).
         { apply filter_all. intros x Hx. pose proof (Hall x Hx) as Hq. cbv beta in Hq. lia. }
         unfold mark_last_slice. cbn [bd_last bd_shreds]. rewrite Hf. split; [|split; [reflexivity | intros last Hl; injection Hl as <-; lia]].
-        intros s0 Hs0. destruct (HJ1 s0 Hs0) as [A [B C]]. cbn [bd_last bd_shreds]. split; [|split; [|exact C]].
+        intros s0 Hs0 T0. destruct (HJ1 s0 Hs0 T0) as [A [B C]]. cbn [bd_last bd_shreds]. split; [|split; [|exact C]].
         * intros Hl0. apply A in Hl0. rewrite El in Hl0. discriminate.
         * intros last Hl. injection Hl as <-. destruct (alookup (b_slice s0) (bd_shreds d1)) as [v|] eqn:Ea; [|congruence].
           apply alookup_In in Ea. pose proof (Hall _ Ea) as Hx. cbv beta in Hx. cbn [fst] in Hx. lia.
       + injection E2 as <-. split; [exact HJ1|]. rewrite El. split; [discriminate | intros last Hl; discriminate]. }
   destruct HJ2 as [HJ2 [Hi Hii]].
   intros H _. destruct (store_step_grow chk c slot d2 s) as [G Kk]. rewrite H in G, Kk. cbn [fst] in G, Kk.
-  intros s0 Hs0. apply in_app_iff in Hs0. destruct Hs0 as [Hs0|[<-|[]]].
-  - exact (last_inv_grow l d2 d' G HJ2 s0 Hs0).
+  intros s0 Hs0 T0. apply in_app_iff in Hs0. destruct Hs0 as [Hs0|[<-|[]]].
+  - exact (last_inv_grow l d2 d' G HJ2 s0 Hs0 T0).
   - destruct G as [G1 _]. rewrite G1. split; [exact Hi | split; [exact Hii | exact Kk]].
 Qed.
 
@@ -422,7 +436,12 @@ Lemma dissem_step_last_inv c slot l sd s sd' r ev : SdOk sd ->
   bs_step true c slot sd (BDissem s) = (sd', r, ev) -> sd_misbehaved sd' = false ->
   sd_misbehaved sd = false /\ (LastInv l (sd_dissem sd) -> LastInv (l ++ [s]) (sd_dissem sd')).
 Proof.
-  intros [Hp W]. unfold bs_step. rewrite Hp. destruct (sd_misbehaved sd) eqn:M.
+  intros [Hp W]. destruct (shred_tag_ok s) eqn:T.
+  2:{ rewrite (bs_step_tag_bad true c slot sd (BDissem s) Hp T). intros H. injection H as <- <- <-. intros M.
+      split; [exact M|]. intros HJ s0 Hs0 T0. apply in_app_iff in Hs0. destruct Hs0 as [Hs0|[<-|[]]]; [|congruence].
+      exact (HJ s0 Hs0 T0). }
+  rewrite (bs_step_tag_ok true c slot sd (BDissem s) T). unfold bs_step_gen. rewrite Hp. cbn [andb].
+  destruct (sd_misbehaved sd) eqn:M.
   - intros H. injection H as <- <- <-. congruence.
   - destruct (bd_add_shred true c slot (sd_dissem sd) s) as [d r0] eqn:E.
     destruct (add_any true c slot _ s d r0 W E) as [_ [Hnp _]].
@@ -449,35 +468,38 @@ Qed.
 (* a last-slice marker contradicted by a shred of a later slice, or by a last-slice marker on another slice,
    gets the leader flagged and InvalidBlock announced exactly once - in any order, among any other shreds *)
 Theorem dissem_last_marker_conflict_flagged : forall c slot l s1 s2,
-  In s1 l -> In s2 l -> b_last s1 = true ->
+  In s1 l -> In s2 l -> shred_tag_ok s1 = true -> shred_tag_ok s2 = true -> b_last s1 = true ->
   b_slice s1 < b_slice s2 \/ (b_last s2 = true /\ b_slice s1 <> b_slice s2) ->
   sd_misbehaved (fst (bs_dissem_run c slot l)) = true /\
   filter is_invalid_event (out_events (snd (bs_dissem_run c slot l))) = [BInvalidBlock].
 Proof.
-  intros c slot l s1 s2 H1 H2 Hl Hc. pose proof (dissem_invalid_once c slot l) as Hinv.
+  intros c slot l s1 s2 H1 H2 T1 T2 Hl Hc. pose proof (dissem_invalid_once c slot l) as Hinv.
   destruct (sd_misbehaved (fst (bs_dissem_run c slot l))) eqn:M; [split; [reflexivity | exact Hinv]|].
   exfalso. pose proof (run_last_inv c slot l M) as HJ.
-  destruct (HJ s1 H1) as [A1 _]. destruct (HJ s2 H2) as [A2 [B2 _]]. specialize (A1 Hl).
+  destruct (HJ s1 H1 T1) as [A1 _]. destruct (HJ s2 H2 T2) as [A2 [B2 _]]. specialize (A1 Hl).
   destruct Hc as [Hc|[Hl2 Hne]].
   - pose proof (B2 _ A1). lia.
   - specialize (A2 Hl2). rewrite A1 in A2. injection A2 as A2. congruence.
 Qed.
 
-(* the two theorems above with a decidable hypothesis *)
+(* the two theorems above with a decidable hypothesis: the conflict is revealed by the shreds that pass the
+   tag guard *)
 Theorem dissem_revealed_equivocation_flagged : forall c slot l,
-  reveals_conflict l || reveals_last_conflict l = true ->
+  reveals_conflict (filter shred_tag_ok l) || reveals_last_conflict (filter shred_tag_ok l) = true ->
   sd_misbehaved (fst (bs_dissem_run c slot l)) = true /\
   filter is_invalid_event (out_events (snd (bs_dissem_run c slot l))) = [BInvalidBlock].
 Proof.
   intros c slot l H. apply orb_true_iff in H. destruct H as [H|H].
   - unfold reveals_conflict in H. apply existsb_exists in H. destruct H as [s1 [H1 H]].
     apply existsb_exists in H. destruct H as [s2 [H2 H]]. apply andb_true_iff in H. destruct H as [A B].
-    apply (dissem_equivocation_flagged c slot l s1 s2 H1 H2); [lia|].
+    apply filter_In in H1. apply filter_In in H2. destruct H1 as [H1 T1], H2 as [H2 T2].
+    apply (dissem_equivocation_flagged c slot l s1 s2 H1 H2 T1 T2); [lia|].
     destruct (commit_eqb (commitment_of s1) (commitment_of s2)); [discriminate | reflexivity].
   - unfold reveals_last_conflict in H. apply existsb_exists in H. destruct H as [s1 [H1 H]].
     apply andb_true_iff in H. destruct H as [Hl H].
     apply existsb_exists in H. destruct H as [s2 [H2 H]].
-    apply (dissem_last_marker_conflict_flagged c slot l s1 s2 H1 H2 Hl).
+    apply filter_In in H1. apply filter_In in H2. destruct H1 as [H1 T1], H2 as [H2 T2].
+    apply (dissem_last_marker_conflict_flagged c slot l s1 s2 H1 H2 T1 T2 Hl).
     apply orb_true_iff in H. destruct H as [H|H]; [left; lia | right].
     apply andb_true_iff in H. destruct H as [A B]. split; [exact A | lia].
 Qed.
@@ -628,7 +650,11 @@ Lemma dissem_step_valid ct slot sd s sd' r ev : SdOk sd -> CInv ct (sd_dissem sd
   bs_step true ct slot sd (BDissem s) = (sd', r, ev) ->
   CInv ct (sd_dissem sd') /\ forall h p, In (BBlock h p) ev -> valid_block ct slot h p.
 Proof.
-  intros [Hp W] HC. unfold bs_step. rewrite Hp. destruct (sd_misbehaved sd) eqn:M.
+  intros [Hp W] HC. destruct (shred_tag_ok s) eqn:T.
+  2:{ rewrite (bs_step_tag_bad true ct slot sd (BDissem s) Hp T). intros H. injection H as <- <- <-.
+      split; [exact HC | intros h p []]. }
+  rewrite (bs_step_tag_ok true ct slot sd (BDissem s) T). unfold bs_step_gen. rewrite Hp. cbn [andb].
+  destruct (sd_misbehaved sd) eqn:M.
   - intros H. injection H as <- <- <-. split; [exact HC | intros h p []].
   - pose proof (add_cinv true ct slot (sd_dissem sd) s HC) as HC'.
     destruct (bd_add_shred true ct slot (sd_dissem sd) s) as [d r0] eqn:E. cbn [fst] in HC'.
